@@ -36,7 +36,13 @@ Inductive op : Type :=
 | OClose (i : Z)            (* opCloseUpvalues(fp + i) : CLOSE_UPVALUES_TO i *)
 | OCall (n : Z)             (* callBytecodeFunction: the n = paramCount+1 top slots become the new frame *)
 | ORet                      (* restoreLastFrame *)
-| OGrow (nb : Z).           (* growValueStack; nb = address the allocator returns for the new array *)
+| OGrow (nb : Z)            (* growValueStack; nb = address the allocator returns for the new array *)
+| ONewVar (i : Z)           (* a NEW VARIABLE INSTANCE starts in the existing slot fp+i with the slot's current
+                               contents (next loop iteration, slot reused by a later declaration).  The machine
+                               executes nothing for it; only the store-semantics spec sees it. *)
+| OTailCall (a lc : Z)      (* callBytecodeFunctionTCO with the fix (opCloseUpvalues(fp) first): a = paramCount+1
+                               argument slots on top, lc = vm.localCount of the frame that is being reused *)
+| OTailCallOld (a lc : Z).  (* callBytecodeFunctionTCO as found: the frame is reused without closing *)
 
 Record st : Type := mkst {
   base : Z;              (* &vm.stack[0] *)
@@ -53,8 +59,12 @@ Record st : Type := mkst {
   out : list Z           (* observable reads, newest first *)
 }.
 
+Definition SENTINEL : Z := -7.
+
+(* vm.New: zeroed array, the sentinel value in the last slot *)
 Definition init_st (b c : Z) : st :=
-  mkst b c (fun _ => 0) b b [] [] (fun _ => UClosed 0) 0 (fun _ => 0%nat) 0 [].
+  mkst b c (fun a => if a =? b + W * (c - 1) then SENTINEL else 0) b b [] []
+       (fun _ => UClosed 0) 0 (fun _ => 0%nat) 0 [].
 
 (* address stored in Upvalue.slot; for a closed upvalue it is a Go heap address outside the
    stack, represented by -1 (never compared equal to or above a stack address) *)
@@ -92,8 +102,6 @@ Definition off_from_to (from to : Z) : Z := Z.quot (to - from) W.
 (* helper as written in the unfixed code: (from - to) / ValueSize *)
 Definition off_from_to_old (from to : Z) : Z := Z.quot (from - to) W.
 
-Definition SENTINEL : Z := -7.
-
 (* copy(newStack, vm.stack); zero tail; sentinel in the last slot *)
 Definition copy_mem (m : Z -> Z) (ob nb c : Z) : Z -> Z :=
   fun a =>
@@ -130,6 +138,12 @@ Definition grow_old (s : st) (nb : Z) (reach : list nat) : st :=
        (fold_left (fun h u => upd h u (rebase_cell off_from_to_old ob nb (h u))) reach (heap s))
        (nheap s) (handles s) (nh s) (out s).
 
+Definition zseq (n : Z) : list Z := map Z.of_nat (seq 0 (Z.to_nat n)).
+
+(* callBytecodeFunctionTCO: for i := range localCount { *fpAdd(i) = *spAdd(-localCount + i) }, ascending *)
+Definition tc_copy (m : Z -> Z) (f p a : Z) : Z -> Z :=
+  fold_left (fun m' i => updz m' (f + W * i) (m' (p - W * a + W * i))) (zseq a) m.
+
 (* ---- one step of the implementation machine ---- *)
 Definition step (s : st) (o : op) : st :=
   match s with
@@ -159,6 +173,12 @@ Definition step (s : st) (o : op) : st :=
         let '(h', ol') := close_to f m h ol in
         mkst b c (updz m f rv) (f + W) (List.hd f fr) (List.tl fr) ol' h' n hd k ou
     | OGrow nb => grow s nb
+    | ONewVar _ => s
+    | OTailCall a lc =>
+        let '(h', ol') := close_to f m h ol in
+        mkst b c (tc_copy m f p a) (p - W * lc) f fr ol' h' n hd k ou
+    | OTailCallOld a lc =>
+        mkst b c (tc_copy m f p a) (p - W * lc) f fr ol h n hd k ou
     end
   end.
 
@@ -185,8 +205,6 @@ Record aview : Type := mkav {
   a_opens : list nat; a_heap : list acell;
   a_handles : list nat; a_out : list Z
 }.
-
-Definition zseq (n : Z) : list Z := map Z.of_nat (seq 0 (Z.to_nat n)).
 
 Definition abs (s : st) : aview :=
   mkav (cap s) (sp s - base s) (fp s - base s) (map (fun a => a - base s) (frames s))
@@ -243,16 +261,34 @@ Definition sstep (t : sst) (o : op) : sst :=
         mksst (f + 1) (List.hd 0 fr) (List.tl fr) (updz sl f nx) (upd ce nx (ce (sl (p - 1))))
               (S nx) hd k ou
     | OGrow _ => t
+    | ONewVar i =>
+        (* the old instance keeps its cell (closures holding it keep seeing it); the slot gets a
+           fresh cell with the same contents *)
+        mksst p f fr (updz sl (f + i) nx) (upd ce nx (ce (sl (f + i)))) (S nx) hd k ou
+    | OTailCall a lc | OTailCallOld a lc =>
+        (* every variable instance of the frame dies; the a argument values become the fresh
+           parameter instances of the callee in slots fp .. fp+a-1 *)
+        let n := Z.to_nat a in
+        mksst (p - lc) f fr
+              (fun j => if (f <=? j) && (j <? f + a) then (nx + Z.to_nat (j - f))%nat else sl j)
+              (fun c => if (nx <=? c)%nat && (c <? nx + n)%nat
+                        then ce (sl (p - a + Z.of_nat (c - nx))) else ce c)
+              (nx + n)%nat hd k ou
     end
   end.
 
 Definition srun (t : sst) (l : list op) : sst := fold_left sstep l t.
 
 (* Discipline D + well-formedness, evaluated on the spec state: operands in range, and a
-   slot is never popped while a closure still refers to the variable instance living in it
-   (the compiler must have emitted CLOSE_UPVALUES_TO first). *)
+   slot is never popped, never given to a new variable instance and never handed to a
+   tail-called function that does not close (as-found machine) while a closure still refers
+   to the variable instance living in it (the compiler must have emitted CLOSE_UPVALUES_TO
+   first).  Return and the FIXED tail call close by themselves, so they need no such guard. *)
 Definition no_handle_on (t : sst) (c : nat) : bool :=
   forallb (fun x => negb (Nat.eqb (shandles t x) c)) (seq 0 (snh t)).
+
+Definition no_handle_in_frame (t : sst) : bool :=
+  forallb (fun k => no_handle_on t (sslots t (sfp t + k))) (zseq (ssp t - sfp t)).
 
 Definition ok (t : sst) (o : op) : bool :=
   match o with
@@ -267,7 +303,14 @@ Definition ok (t : sst) (o : op) : bool :=
             | g :: _ => (0 <=? g) && (g <=? sfp t) && (sfp t <? ssp t)
             end
   | OGrow _ => true
+  | ONewVar i => (0 <=? i) && (sfp t + i <? ssp t) && no_handle_on t (sslots t (sfp t + i))
+  | OTailCall a lc => (0 <=? a) && (0 <=? lc) && (ssp t =? sfp t + lc + a)
+  | OTailCallOld a lc => (0 <=? a) && (0 <=? lc) && (ssp t =? sfp t + lc + a) && no_handle_in_frame t
   end.
+
+(* the as-found machine: tail calls do not close *)
+Definition as_found (o : op) : op :=
+  match o with OTailCall a lc => OTailCallOld a lc | _ => o end.
 
 Fixpoint D (t : sst) (l : list op) : bool :=
   match l with [] => true | o :: r => ok t o && D (sstep t o) r end.
